@@ -72,6 +72,21 @@ def build_runs(tier, seed):
         ms = sqltok.mutants(full, rnd, None if tier != 'quick' else 50)
         for j in range(0, len(ms), 5):
             runs.append({'kind': 'mutant:emptylists', 'texts': [e] + [m for _, m in ms[j:j + 5]] + [full, tail(400 + k)], 'build_every': 3})
+    # attribute types that are no core type, in plain, identifying, referring and referred positions, with rows given
+    # positionally and by name and values of every lexical class: building may fail, but only in the documented ways
+    for k, ty in enumerate(['uuid', 'same_as_base', 'INT', 'text', 'DATE', 'inst_ref', 'Bool']):
+        for j, (plain, ident, referring, referred) in enumerate([(ty, 'UNIQUE_ID', 'UNIQUE_ID', 'UNIQUE_ID'), ('STRING', ty, 'UNIQUE_ID', 'UNIQUE_ID'),
+                                                                 ('STRING', 'UNIQUE_ID', ty, 'UNIQUE_ID'), ('STRING', 'UNIQUE_ID', 'UNIQUE_ID', ty),
+                                                                 ('STRING', 'UNIQUE_ID', ty, ty)]):
+            sch = ('CREATE TABLE OA (Id %s, Nm %s);\nCREATE TABLE OB (Id %s, OA_Id %s);\n' % (referred, plain, ident, referring) +
+                   'CREATE ROP REF_ID R1 FROM MC OB (OA_Id) TO 1 OA (Id);\nCREATE UNIQUE INDEX I1 ON OA (Id);\nCREATE UNIQUE INDEX I1 ON OB (Id);\n')
+            texts = [sch]
+            for v in ('1', "'x'", '"00000000-0000-0000-0000-000000000001"', 'true', '1.5'):
+                w = v if (j + k) % 2 else '1'
+                texts.append(rnd.choice(["INSERT INTO OA VALUES (%s, %s);\nINSERT INTO OB VALUES (%s, %s);\n",
+                                         "INSERT INTO OA (Id, Nm) VALUES (%s, %s);\nINSERT INTO OB (OA_Id, Id) VALUES (%s, %s);\n",
+                                         "INSERT INTO OB VALUES (%s, %s);\nINSERT INTO OA (Nm, Id) VALUES (%s, %s);\n"]) % (v, w, w, v))
+            runs.append({'kind': 'oddtypes', 'texts': texts + [tail(500 + k)], 'build_every': 1})
     # adversarial sizes for the time bound
     runs.append({'kind': 'long', 'texts': ["INSERT INTO X VALUES ('" + "a''" * 20000 + "');", '-- ' + 'x' * 100000,
                                            "'" + 'b' * 50000, '"' + 'c' * 50000, '(' * 3000, '1' * 5000 + '.'],
@@ -140,7 +155,7 @@ def check(tier, replay_path=None):
                    'distinct = distinct histories of texts',
            'samples': samples or [{'note': 'none'}], 'calls_per_outcome': outcomes,
            'runs_by_kind': {k: sum(1 for r in runs if r['kind'].split(':')[0] == k) for k in
-                            ('mutant', 'interleaved', 'soup', 'noise', 'long')},
+                            ('mutant', 'interleaved', 'soup', 'noise', 'long', 'oddtypes')},
            'model': 'LoadIO.tla (Accept, RejectInput, Build) with RejectedInputIsStutter, BuildIsPure',
            'exhaustive': False}
     evidence.write(PID, tier, 'model_checking', cov, t.s(), rep.n, [
